@@ -9,49 +9,11 @@
                                    of the same shape.  This turns a statement about all strings of a shape into ONE computation. *)
 From Coq Require Import ZArith List Bool Lia.
 From PV Require Import Model.C07Regex.
+From PV Require Export Model.RegexSpan.
 Import ListNotations.
 Open Scope Z_scope.
 
-(* ------------------------------------------------------------------ the span-tracking twin *)
-Definition span := (nat * nat)%type.
-Definition scaps := list (option span).
-
-Fixpoint upd_sp (n : nat) (v : span) (c : scaps) : scaps :=
-  match n, c with
-  | O, _ :: t => Some v :: t
-  | S n', h :: t => h :: upd_sp n' v t
-  | _, [] => []
-  end.
-
-Fixpoint rmatch_sp (r : re) (i : nat) (s : list Z) (c : scaps)
-         (k : nat -> list Z -> scaps -> option scaps) {struct r} : option scaps :=
-  match r with
-  | REps => k i s c
-  | RLit a => match s with x :: t => if x =? a then k (S i) t c else None | [] => None end
-  | RIn neg rs => match s with x :: t => if xorb neg (in_ranges x rs) then k (S i) t c else None | [] => None end
-  | RSeq a b => rmatch_sp a i s c (fun i' s' c' => rmatch_sp b i' s' c' k)
-  | RAlt a b => match rmatch_sp a i s c k with Some res => Some res | None => rmatch_sp b i s c k end
-  | RRep a mn mx =>
-      (fix rep (mx : nat) (mn : nat) (i : nat) (s : list Z) (c : scaps) {struct mx} : option scaps :=
-         match mx with
-         | O => match mn with O => k i s c | S _ => None end
-         | S mx' =>
-             match rmatch_sp a i s c (fun i' s' c' => rep mx' (pred mn) i' s' c') with
-             | Some res => Some res
-             | None => match mn with O => k i s c | S _ => None end
-             end
-         end) mx mn i s c
-  | RGrp n a => rmatch_sp a i s c (fun i' s' c' => k i' s' (upd_sp n (i, (i' - i)%nat) c'))
-  | RBeg => match i with O => k i s c | S _ => None end
-  | REnd => match s with [] => k i s c | [10] => k i s c | _ => None end
-  end.
-
-Definition re_match_sp (r : re) (ngroups : nat) (s : list Z) : option scaps :=
-  rmatch_sp r 0 s (repeat None (S ngroups)) (fun _ _ c => Some c).
-
-(* the substring at a span, and the texts of a list of spans *)
-Definition sub (whole : list Z) (sp : span) : list Z := firstn (snd sp) (skipn (fst sp) whole).
-Definition texts (whole : list Z) (sc : scaps) : caps := map (option_map (sub whole)) sc.
+(* the span-tracking twin rmatch_sp / re_match_sp, sub, texts: Model/RegexSpan.v *)
 
 (* ------------------------------------------------------------------ controlled unfolding *)
 (* the bounded greedy repetition, abstracted over the body's matcher and the capture type *)
